@@ -385,11 +385,16 @@ class CCodegen(Stringifier):
             ...body...
           }
         """
-        control = 'for ({var} = {start}; {var} {crit} {end}; {var} += {incr})'.format(
-            var=self.visit(o.variable, **kwargs), start=self.visit(o.bounds.start, **kwargs),
-            end=self.visit(o.bounds.stop, **kwargs),
-            crit='<=' if not o.bounds.step or symbolic_op(o.bounds.step, gt, Literal(0)) else '>=',
-            incr=self.visit(o.bounds.step, **kwargs) if o.bounds.step else 1)
+        var = self.visit(o.variable, **kwargs)
+        end = self.visit(o.bounds.stop, **kwargs)
+        incr = self.visit(o.bounds.step, **kwargs) if o.bounds.step else 1
+        try:
+            positive = not o.bounds.step or symbolic_op(o.bounds.step, gt, Literal(0))
+            criterion = f'{var} <= {end}' if positive else f'{var} >= {end}'
+        except TypeError:
+            # The sign of the stride is not known before run time
+            criterion = f'(({incr}) > 0 ? {var} <= {end} : {var} >= {end})'
+        control = f'for ({var} = {self.visit(o.bounds.start, **kwargs)}; {criterion}; {var} += {incr})'
         header = self.format_line(control, ' {')
         footer = self.format_line('}')
         self.depth += 1
